@@ -39,7 +39,8 @@ ENTRIES = {
  'C07': ['rules:NetworkRule.IsHigherPriority', 'rules:NewMatchingResult', 'rules:GetDNSBasicRule', 'rules:NetworkRuleOption.Count',
          'rules:RequestType.Count', 'rules:NetworkRule.IsGeneric'],
  'C08': ['rules:removeBadfilterRules', 'rules:RemoveBadfilterRules', 'rules:NetworkRule.negatesBadfilter', 'rules:clients.Equal',
-         'rules:NewMatchingResult', 'rules:GetDNSBasicRule', '.:DNSResult.DNSRewritesAll'],
+         'rules:NewMatchingResult', 'rules:GetDNSBasicRule', '.:DNSResult.DNSRewritesAll', 'rules:NewNetworkRule', 'rules:parseRuleText',
+         'rules:NetworkRule.loadOptions', 'rules:NetworkRule.loadOption'],
  'C09': ['.:DNSResult.DNSRewrites', '.:DNSResult.DNSRewritesAll', '.:matchException', '.:removeMatchingException'],
  'C10': ['rules:loadDNSRewrite', 'rules:loadDNSRewriteShort', 'rules:loadDNSRewriteNormal', 'rules:dnsRewriteRRHandlers', 'rules:validateHost',
          'rules:strToRRType'],
@@ -50,7 +51,8 @@ ENTRIES = {
          'filterlist:FileRuleList.NewScanner', 'filterlist:readLine', 'filterlist:NewRuleScanner', 'filterlist:NewFileRuleList'],
  'C12': ['rules:NewRule', 'rules:NewNetworkRule', 'rules:NewHostRule', 'rules:NewCosmeticRule', 'rules:NetworkRule.Match', 'rules:HostRule.Match',
          'rules:CosmeticRule.Match', 'filterlist:RuleScanner.readNextLine', 'filterlist:RuleScanner.Scan', '.:NetworkEngine.MatchAll',
-         '.:DNSEngine.MatchRequest', '.:CosmeticEngine.Match', '.:NetworkEngine.Match'],
+         '.:DNSEngine.MatchRequest', '.:CosmeticEngine.Match', '.:NetworkEngine.Match', 'filterlist:RuleStorage.RetrieveRule',
+         'filterlist:FileRuleList.RetrieveRule', 'filterlist:StringRuleList.RetrieveRule', 'filterlist:readLine'],
  'C13': ['.:NetworkEngine.MatchAll', '.:DNSEngine.MatchRequest', '.:DNSEngine.Match', '.:DNSEngine.getRequestFromPool', 'filterlist:RuleStorage.RetrieveRule',
          'filterlist:FileRuleList.RetrieveRule', 'filterlist:StringRuleList.RetrieveRule', 'rules:NetworkRule.preparePattern',
          'rules:FillRequestForHostname', 'rules:MatchingResult.GetBasicResult', 'rules:MatchingResult.GetCosmeticOption', 'rules:removeDNSRewriteRules',
